@@ -3,8 +3,12 @@
 group  : {"sig": [[kind, name, default|null], ...],      kind 0..4 = positional-only, positional-or-keyword,
           "meth": null | "pk" | "po",                    *args, keyword-only, **kwargs
           "partial": false|true,
-          "calls": [[pos, kw, ign], ...]}                pos: [int], kw: [[name, int]], ign: [name|'*'|'**'] | null
+          "family": null | {"kind": "share"|"wraps", "sigs": [sig0, sig1, ...]},
+          "calls": [[pos, kw, ign, idx?], ...]}           pos: [code], kw: [[name, code]], ign: [name|'*'|'**'] | null
 result : {"src": <def line>, "res": [{"real": ..., "insp": ..., "fa": ...}, ...]}
+
+All groups of one stdin are handled by ONE interpreter, in order (state that joblib keeps between calls is
+exercised).  Values travel as integer codes: an int stands for itself, -1 None, -2 False, -3 '', -4 (), -5 True.
 
 For every call three things are computed on the live interpreter / live joblib:
   real : the function is really CALLED (its body returns its parameters) -> dict | null (TypeError)
@@ -12,11 +16,18 @@ For every call three things are computed on the live interpreter / live joblib:
   fa   : joblib.func_inspect.filter_args(f, ign, pos, kw)             -> {"ok": dict} | {"raise": name}
 A bound method is `obj.m` of a generated class whose first parameter is `s` (positional-or-keyword for
 "pk", positional-only for "po"); the instance is written as the integer 999.
+
+family "share": functions i >= 1 are built with types.FunctionType from the CODE OBJECT of function 0 and get
+their own __defaults__/__kwdefaults__ (sigs[i] has the kinds and names of sigs[0], other defaults) -- the
+situation of `lambda x, i=i` in a loop or closures of one factory.  family "wraps": every sigs[i] is an
+independent function behind the SAME functools.wraps decorator (one wrapper code object, inspect.signature
+follows __wrapped__).  calls[j][3] selects the function.
 """
 import functools
 import inspect
 import json
 import sys
+import types
 import warnings
 
 from joblib.func_inspect import filter_args
@@ -24,6 +35,29 @@ from joblib.func_inspect import filter_args
 PO, PK, VP, KO, VK = range(5)
 SELF_NAME = "s"
 SELF_VALUE = 999
+SPECIAL = {-1: None, -2: False, -3: "", -4: (), -5: True}
+
+
+def dec(c):
+    return SPECIAL.get(c, c)
+
+
+def enc(v, obj):
+    if obj is not None and v is obj:
+        return SELF_VALUE
+    if v is None:
+        return -1
+    if v is False:
+        return -2
+    if v is True:
+        return -5
+    if type(v) is str and v == "":
+        return -3
+    if type(v) is tuple and v == ():
+        return -4
+    if type(v) is int:
+        return v
+    return "?" + repr(v)
 
 
 def src_of(sig, fname="f"):
@@ -34,7 +68,7 @@ def src_of(sig, fname="f"):
             parts.append("*")
         s = {PO: nm, PK: nm, VP: "*" + nm, KO: nm, VK: "**" + nm}[k]
         if d is not None:
-            s += "=%d" % d
+            s += "=%r" % (dec(d),)
         parts.append(s)
         if k == PO and (i + 1 == len(sig) or sig[i + 1][0] != PO):
             parts.append("/")
@@ -50,47 +84,106 @@ def full_sig(sig, meth):
     return [[selfkind, SELF_NAME, None]] + [list(p) for p in sig]
 
 
-def make(sig, meth):
+def plain_function(fsig, name):
     ns = {}
-    if meth:
-        body = src_of(full_sig(sig, meth), "m")
-        src = "class K:\n" + "".join("    " + ln + "\n" for ln in body.splitlines())
-        exec(src, ns)
-        obj = ns["K"]()
-        return obj.m, obj, body.splitlines()[0]
-    src = src_of(sig)
+    src = src_of(fsig, name)
     exec(src, ns)
-    return ns["f"], None, src.splitlines()[0]
+    return ns[name], src.splitlines()[0]
 
 
-def norm(x, obj):
-    if isinstance(x, dict):
-        return {k: norm(v, obj) for k, v in x.items()}
-    if isinstance(x, (list, tuple)):
-        return [norm(v, obj) for v in x]
-    if obj is not None and x is obj:
-        return SELF_VALUE
-    return x
+def same_code_function(f0, fsig, name):
+    """a second function object on f0's code object, with the defaults of fsig"""
+    posd = tuple(dec(p[2]) for p in fsig if p[0] in (PO, PK) and p[2] is not None)
+    f = types.FunctionType(f0.__code__, f0.__globals__, name, posd or None)
+    kwd = {p[1]: dec(p[2]) for p in fsig if p[0] == KO and p[2] is not None}
+    f.__kwdefaults__ = kwd or None
+    return f
+
+
+def the_decorator(f):
+    @functools.wraps(f)
+    def wrapper(*args, **kwargs):
+        return f(*args, **kwargs)
+    return wrapper
+
+
+def as_callable(f, meth):
+    """(callable, instance)"""
+    if not meth:
+        return f, None
+    obj = type("K", (), {"m": f})()
+    return obj.m, obj
+
+
+def make_all(g):
+    """list of (callable, instance, def-line, bound signature) selected by calls[j][3]"""
+    meth = g.get("meth")
+    fam = g.get("family")
+    if not fam:
+        f, line = plain_function(full_sig(g["sig"], meth), "m" if meth else "f")
+        c, obj = as_callable(f, meth)
+        return [(c, obj, line, g["sig"])]
+    out = []
+    if fam["kind"] == "share":
+        f0, line0 = plain_function(full_sig(fam["sigs"][0], meth), "m" if meth else "f")
+        for i, sg in enumerate(fam["sigs"]):
+            f = f0 if i == 0 else same_code_function(f0, full_sig(sg, meth), "m" if meth else "f")
+            c, obj = as_callable(f, meth)
+            out.append((c, obj, src_of(full_sig(sg, meth), "m" if meth else "f").splitlines()[0] + "  # code shared", sg))
+    elif fam["kind"] == "wraps":
+        for sg in fam["sigs"]:
+            f, line = plain_function(sg, "f")
+            out.append((the_decorator(f), None, "@wraps " + line, sg))
+    else:
+        raise ValueError(fam["kind"])
+    return out
+
+
+def norm_binding(d, fsig, obj):
+    out = {}
+    for k, nm, _ in fsig:
+        if nm not in d:
+            continue
+        if k == VP:
+            out[nm] = [enc(x, obj) for x in d[nm]]
+        elif k == VK:
+            out[nm] = {a: enc(x, obj) for a, x in d[nm].items()}
+        else:
+            out[nm] = enc(d[nm], obj)
+    return out
+
+
+def norm_fa(d, obj):
+    out = {}
+    for k, v in d.items():
+        if k == "*":
+            out[k] = [enc(x, obj) for x in v]
+        elif k == "**":
+            out[k] = {a: enc(x, obj) for a, x in v.items()}
+        else:
+            out[k] = enc(v, obj)
+    return out
 
 
 def run_group(g):
-    sig, meth = g["sig"], g.get("meth")
-    f, obj, line = make(sig, meth)
-    target = f
-    if g.get("partial"):
-        target = functools.partial(f)
+    meth = g.get("meth")
+    funcs = make_all(g)
     out = []
-    for pos, kw, ign in g["calls"]:
-        kwd = dict((k, v) for k, v in kw)
+    for call in g["calls"]:
+        pos, kw, ign = call[0], call[1], call[2]
+        f, obj, line, sig = funcs[call[3] if len(call) > 3 else 0]
+        target = functools.partial(f) if g.get("partial") else f
+        pos = [dec(v) for v in pos]
+        kwd = dict((k, dec(v)) for k, v in kw)
         r = {}
         try:
-            r["real"] = norm(f(*pos, **kwd), obj)
+            r["real"] = norm_binding(f(*pos, **kwd), full_sig(sig, meth), obj)
         except TypeError:
             r["real"] = None
         try:
             ba = inspect.signature(f).bind(*pos, **kwd)
             ba.apply_defaults()
-            insp = norm(dict(ba.arguments), obj)
+            insp = norm_binding(dict(ba.arguments), sig, obj)
             if meth:
                 insp = dict({SELF_NAME: SELF_VALUE}, **insp)
             r["insp"] = insp
@@ -100,11 +193,11 @@ def run_group(g):
             with warnings.catch_warnings():
                 warnings.simplefilter("ignore")
                 d = filter_args(target, list(ign or []), tuple(pos), dict(kwd))
-            r["fa"] = {"ok": norm(d, obj), "order": list(d.keys())}
+            r["fa"] = {"ok": norm_fa(d, obj), "order": list(d.keys())}
         except Exception as e:  # noqa  -- the exception class is the observation
             r["fa"] = {"raise": type(e).__name__}
         out.append(r)
-    return {"src": line, "res": out}
+    return {"src": funcs[0][2], "srcs": [x[2] for x in funcs], "res": out}
 
 
 def main():
